@@ -79,22 +79,24 @@ Full statement / proved / missing
                          `C17_schema_partial`: the definition proper.  Missing: the text parser (C05) and the general
                          instance relation of Pattern/Variant/Hash types (C02) — `sinst` implements them on the value shapes
                          an object definition holds only.
-* `C17_type_inithash`  — FULL statement kept as a `def … : Prop`: every accepted definition re-created from the InitHash of the
-                         type it defined (`typeDef`: attribute.initHash / objectType.initHash) is accepted again and is the
-                         same type up to the order of the own attributes (`constants` last).  Proved part
-                         `C17_type_inithash_partial`: … when no own attribute is a constant of an Optional type with the value
-                         undef; `C17_type_inithash_same`: the re-created type has the same layout (`attrInfo`), member
-                         lookup, `Get` and init-hashes.  The full statement is FALSE of model and code (known finding
-                         C17-type-inithash-constant-undef): `C17_type_inithash_constant_undef` is the negation, replayed
-                         on the implementation by the harness (class `reinit-constant-undef`).
+* `C17_type_inithash`  — every accepted definition re-created from the InitHash of the type it defined (`typeDef`:
+                         attribute.initHash / objectType.initHash) is accepted again and is the same type up to the order of
+                         the own attributes (`constants` last).  PROVED IN FULL since the fix 86875be (a constant writes its
+                         value even when it is undef); `C17_type_inithash_partial` (the statement proved before the fix,
+                         with the exclusion) is kept as a corollary; `C17_type_inithash_same`: the re-created type has the
+                         same layout (`attrInfo`), member lookup, `Get` and init-hashes.  `C17_type_inithash_before_fix`:
+                         the fixed finding C17-type-inithash-constant-undef replayed — what the type printed as before the
+                         fix (`typeDefBefore`) is rejected with CONSTANT_REQUIRES_VALUE, what it prints as now is accepted.
 * type parameters    — inside the model (Model/ObjectParams: `newPosX`, `newNamedX`, `equalsX`; an instance carries the bindings
                          of its type, `T[p => v]`).  `C17x_plain`: on a type without type parameters the X constructors and
                          `Equals` ARE the plain ones (every theorem above applies); `C17x_get`: Get = given or default on any
                          type; `C17x_equality`: the full equality statement with "same type" = same definition and same
                          bindings; `C17x_pos_named` (FULL, a `def`): positional = named on parameterized types — FALSE of
-                         model and code (known finding C17-tparam-explicit-undef, negation
-                         `C17x_pos_named_explicit_default`); proved part `C17x_pos_named_partial`: … when no parameter's
-                         attribute is given its default explicitly.  `C17x_inithash` (FULL, a `def`): the init-hash round trip
+                         model and code (known finding C17-tparam-explicit-default: a NON-undef default given explicitly;
+                         negation `C17x_pos_named_explicit_default`); proved part `C17x_pos_named_partial`: … when no
+                         parameter's attribute is given its default explicitly, an undef excepted (the undef face,
+                         C17-tparam-explicit-undef, is fixed by de95e71: `bindParams` binds no undef,
+                         `C17x_pos_named_before_fix` / `C17x_inithash_before_fix` replay it).  `C17x_inithash` (FULL, a `def`): the init-hash round trip
                          on parameterized types, refuted by the same finding (`C17x_inithash_explicit_default`); proved part
                          `C17x_inithash_partial` for every instance whose bindings are those of its own init-hash (`ExtOK`),
                          which every positional construction is (`C17x_extOK_pos`).  Missing: `IsInstance` of a
@@ -1173,6 +1175,36 @@ theorem bindParams_congr {t : OType} {es es' : List (String × Val)} {va va' : L
     intro q hq
     rw [hl q hq]
 
+/-- what a hash binds a type parameter to: an undef binds nothing (fix de95e71) -/
+def bound (es : List (String × Val)) (n : String) : Option Val := (es.lookup n).filter (· != .undef)
+
+theorem bindParams_congr' {t : OType} {es es' : List (String × Val)} {va va' : List Val}
+    (hl : ∀ q ∈ typeParams t, bound es q.1 = bound es' q.1) (hv : va.isEmpty = va'.isEmpty) :
+    bindParams t es va = bindParams t es' va' := by
+  unfold bindParams
+  rw [hv]
+  split
+  · rfl
+  · apply List.filterMap_congr
+    intro q hq
+    have h := hl q hq
+    unfold bound at h
+    cases h1 : es.lookup q.1 with
+    | none =>
+      cases h2 : es'.lookup q.1 with
+      | none => rfl
+      | some v' =>
+        rw [h1, h2] at h
+        by_cases hu' : v' = .undef <;> simp_all [Option.filter]
+    | some v =>
+      cases h2 : es'.lookup q.1 with
+      | none =>
+        rw [h1, h2] at h
+        by_cases hu : v = .undef <;> simp_all [Option.filter]
+      | some v' =>
+        rw [h1, h2] at h
+        by_cases hu : v = .undef <;> by_cases hu' : v' = .undef <;> simp_all [Option.filter]
+
 theorem bindParams_nil (t : OType) (va : List Val) : bindParams t [] va = [] := by
   unfold bindParams
   split
@@ -1181,20 +1213,22 @@ theorem bindParams_nil (t : OType) (va : List Val) : bindParams t [] va = [] := 
     intro q _
     simp
 
-/-- no type parameter's attribute is given (positionally) the value that is its default -/
+/-- no type parameter's attribute is given (positionally) the value that is its default — unless that value is undef
+    (since the fix de95e71 an undef binds nothing, given or left out) -/
 def NoParamDefault (t : OType) (vs : List Val) : Prop :=
   ∀ q ∈ typeParams t, ∀ (i : Nat) (a : Attr) (v : Val),
-    (posAttrs t)[i]? = some a → a.name = q.1 → vs[i]? = some v → skips a v = false
+    (posAttrs t)[i]? = some a → a.name = q.1 → vs[i]? = some v → skips a v = false ∨ v = .undef
 
 /-- FULL statement for parameterized types: positional and named construction yield Equal objects (of the same
-    parameterized type).  FALSE of model and code — known finding C17-tparam-explicit-undef
-    (`C17x_pos_named_explicit_default`). -/
+    parameterized type).  FALSE of model and code — known finding C17-tparam-explicit-default
+    (`C17x_pos_named_explicit_default`; its undef face, C17-tparam-explicit-undef, is fixed by de95e71:
+    `C17x_pos_named_before_fix`). -/
 def C17x_pos_named : Prop :=
   ∀ (t : OType) (vs : List Val) (o : PObj) (h : Val), WF t → newPosX t vs = .ok o →
     ∃ o', newNamedX t (toHash (posAttrs t) vs) h = .ok o' ∧ equalsX o o' = .ok true ∧ equalsX o' o = .ok true
 
-/-- proved part: … when no type parameter's attribute is given its default explicitly (`NoParamDefault`; trivially true of
-    a type without type parameters).  Then the named twin exists, has the same bindings (the same parameterized type),
+/-- proved part: … when no type parameter's attribute is given its default explicitly — an undef excepted, since the fix
+    de95e71 (`NoParamDefault`; trivially true of a type without type parameters).  Then the named twin exists, has the same bindings (the same parameterized type),
     denotes the same value at every position and is Equal in both directions.  Missing: exactly the finding. -/
 theorem C17x_pos_named_partial {t : OType} {vs : List Val} {o : PObj} (h : Val) (hw : WF t)
     (hn : newPosX t vs = .ok o) (hnd : NoParamDefault t vs) :
@@ -1228,14 +1262,19 @@ theorem C17x_pos_named_partial {t : OType} {vs : List Val} {o : PObj} (h : Val) 
         exact bindParams_nil _ _
       · exact bindParams_plain hnp _ _
     · rw [hx, hva]
-      apply bindParams_congr _ rfl
+      apply bindParams_congr' _ rfl
       intro q hq
+      unfold bound
       by_cases hex : ∃ (i : Nat) (a : Attr), (posAttrs t')[i]? = some a ∧ a.name = q.1
       · obtain ⟨i, a, hi, han⟩ := hex
         rw [← han, lookup_toHash hw.nodup hi, lookup_mvh hw.nodup hi]
         cases hvi : vs[i]? with
         | none => rfl
-        | some v => simp [hnd q hq i a v hi han hvi]
+        | some v =>
+          rcases hnd q hq i a v hi han hvi with hs | hu
+          · simp [hs]
+          · subst hu
+            by_cases hs : skips a .undef <;> simp [hs, Option.filter]
       · have hno : ∀ a ∈ posAttrs t', a.name ≠ q.1 := by
           intro a ha han
           obtain ⟨i, hi⟩ := List.getElem?_of_mem ha
@@ -1294,21 +1333,55 @@ theorem wf_lvP : WF [lvP] :=
       if_true, List.filter_nil, List.mem_cons, List.not_mem_nil, or_false] at ha
     rcases ha with rfl | rfl <;> intro hk <;> cases hk⟩ rfl
 
-/-- the known finding C17-tparam-explicit-undef, replayed in the model: `T = {type_parameters => {p => Integer}, a => Integer,
-    p => Optional[Integer]}`; `new(T, 1, undef)` is a `T`, its named twin `new(T, {a => 1, p => undef})` a `T[p => undef]`,
-    and the two are not Equal -/
+/-- `T3 = {type_parameters => {p => Integer}, a => Integer, p => {type => Integer, value => 3}}` -/
+def lvP3 : Level :=
+  { id := 0, attrs := [{ name := "a", ty := .int, kind := .normal, value := none },
+                       { name := "p", ty := .int, kind := .normal, value := some (.int 3) }],
+    equality := none, includeType := true, serialization := none, params := [("p", .int)] }
+
+theorem wf_lvP3 : WF [lvP3] :=
+  wf_noSerialization ⟨by decide, by
+    intro a ha
+    simp only [eachAttribute, lvP3, List.map_nil, List.nil_append, List.any_nil, Bool.not_false, List.filter_cons,
+      if_true, List.filter_nil, List.mem_cons, List.not_mem_nil, or_false] at ha
+    rcases ha with rfl | rfl <;> intro hk <;> cases hk⟩ rfl
+
+/-- the known finding C17-tparam-explicit-default (what the fix de95e71 left), replayed in the model: `new(T3, 1, 3)` is a
+    `T3` (makeValueHash leaves the value equal to the default out), its named twin `new(T3, {a => 1, p => 3})` a
+    `T3[p => 3]`, and the two are not Equal -/
 theorem C17x_pos_named_explicit_default : ¬ C17x_pos_named := by
   intro h
-  have h1 : newPosX [lvP] [.int 1, .undef] = .ok { obj := { typ := [lvP], values := [.int 1] }, ext := [] } := by decide
-  obtain ⟨o', hn, he, -⟩ := h [lvP] [.int 1, .undef] _ (.hash "") wf_lvP h1
-  have h2 : newNamedX [lvP] (toHash (posAttrs [lvP]) [.int 1, .undef]) (.hash "") =
-      .ok { obj := { typ := [lvP], values := [.int 1] }, ext := [("p", .undef)] } := by decide
+  have h1 : newPosX [lvP3] [.int 1, .int 3] = .ok { obj := { typ := [lvP3], values := [.int 1] }, ext := [] } := by decide
+  obtain ⟨o', hn, he, -⟩ := h [lvP3] [.int 1, .int 3] _ (.hash "") wf_lvP3 h1
+  have h2 : newNamedX [lvP3] (toHash (posAttrs [lvP3]) [.int 1, .int 3]) (.hash "") =
+      .ok { obj := { typ := [lvP3], values := [.int 1] }, ext := [("p", .int 3)] } := by decide
   rw [h2] at hn
   cases hn
-  have h3 : equalsX { obj := { typ := [lvP], values := [.int 1] }, ext := [] }
-      { obj := { typ := [lvP], values := [.int 1] }, ext := [("p", .undef)] } = .ok false := by decide
+  have h3 : equalsX { obj := { typ := [lvP3], values := [.int 1] }, ext := [] }
+      { obj := { typ := [lvP3], values := [.int 1] }, ext := [("p", .int 3)] } = .ok false := by decide
   rw [h3] at he
   cases he
+
+/-- the finding C17-tparam-explicit-undef (fixed by de95e71), replayed: `T = {type_parameters => {p => Integer}, a => Integer,
+    p => Optional[Integer]}`; `new(T, 1, undef)` is a `T`; BEFORE the fix the bindings of its named twin
+    `new(T, {a => 1, p => undef})` were `p => undef` (`bindParamsBefore`: a `T[p => undef]`, not Equal); now the twin is a
+    `T` too and Equal -/
+theorem C17x_pos_named_before_fix :
+    newPosX [lvP] [.int 1, .undef] = .ok { obj := { typ := [lvP], values := [.int 1] }, ext := [] } ∧
+    bindParamsBefore [lvP] (toHash (posAttrs [lvP]) [.int 1, .undef]) [.int 1] = [("p", .undef)] ∧
+    newNamedX [lvP] (toHash (posAttrs [lvP]) [.int 1, .undef]) (.hash "") =
+      .ok { obj := { typ := [lvP], values := [.int 1] }, ext := [] } ∧
+    NoParamDefault [lvP] [.int 1, .undef] := by
+  refine ⟨by decide, by decide, by decide, ?_⟩
+  intro q hq i a v hi han hv
+  have hp : posAttrs [lvP] = lvP.attrs := rfl
+  simp only [typeParams, lvP, List.nil_append, List.mem_cons, List.not_mem_nil, or_false] at hq
+  subst hq
+  rw [hp] at hi
+  rcases i with _ | _ | i
+  · simp [lvP] at hi; subst hi; simp at han
+  · simp [lvP] at hi hv; subst hv; exact Or.inr rfl
+  · simp [lvP] at hi
 
 /-- hypotheses of `C17x_pos_named_partial` / `C17x_get` / `C17x_equality` on a parameterized type: a construction that BINDS
     the parameter (`new(T, 1, 5)` is a `T[p => 5]`), its named twin, and an instance of another parameterized type of the
@@ -1323,7 +1396,7 @@ example : NoParamDefault [lvP] [.int 1, .int 5] := by
   rw [hp] at hi
   rcases i with _ | _ | i
   · simp [lvP] at hi; subst hi; simp at han
-  · simp [lvP] at hi hv; subst hi; subst hv; rfl
+  · simp [lvP] at hi hv; subst hi; subst hv; exact Or.inl rfl
   · simp [lvP] at hi
 example : sameTypeX { obj := { typ := [lvP], values := [.int 1, .int 5] }, ext := [("p", .int 5)] }
     { obj := { typ := [lvP], values := [.int 1, .int 6] }, ext := [("p", .int 6)] } = false := by decide
@@ -1354,8 +1427,9 @@ theorem C17x_extOK_pos {t : OType} {vs : List Val} {o : PObj} (hw : WF t) (hn : 
     exact hw.tailOpt i a hi (by omega)
 
 /-- FULL statement for parameterized types: the object rebuilt from its init-hash is Equal to the original, whichever
-    constructor made it.  FALSE of model and code — the known finding C17-tparam-explicit-undef again
-    (`C17x_inithash_explicit_default`: the init-hash leaves the default out, the rebuilt object has the plain type). -/
+    constructor made it.  FALSE of model and code — the known finding C17-tparam-explicit-default again
+    (`C17x_inithash_explicit_default`: the init-hash leaves the default out, the rebuilt object has the plain type; the
+    undef face is fixed by de95e71, `C17x_inithash_before_fix`). -/
 def C17x_inithash : Prop :=
   ∀ (t : OType) (es : List (String × Val)) (h : Val) (o : PObj), WF t → newNamedX t es h = .ok o → Valid o.obj →
     ∃ o', newNamedX t (initHash o.obj) h = .ok o' ∧ equalsX o' o = .ok true
@@ -1420,21 +1494,32 @@ theorem C17x_inithash_partial {o : PObj} (h : Val) (hw : WF o.obj.typ) (hv : Val
   · simp only
     rw [hden]
 
-/-- the known finding, second face: `new(T, {a => 1, p => undef})` is a `T[p => undef]`; its init-hash is `{a => 1}`; the
-    object rebuilt from it is a plain `T` and not Equal to the original -/
+/-- the known finding, second face: `new(T3, {a => 1, p => 3})` is a `T3[p => 3]`; its init-hash is `{a => 1}`; the
+    object rebuilt from it is a plain `T3` and not Equal to the original -/
 theorem C17x_inithash_explicit_default : ¬ C17x_inithash := by
   intro h
-  have h1 : newNamedX [lvP] [("a", .int 1), ("p", .undef)] (.hash "") =
-      .ok { obj := { typ := [lvP], values := [.int 1] }, ext := [("p", .undef)] } := by decide
-  obtain ⟨o', hn, he⟩ := h [lvP] _ (.hash "") _ wf_lvP h1 ⟨by decide, by decide⟩
-  have h2 : newNamedX [lvP] (initHash { typ := [lvP], values := [.int 1] }) (.hash "") =
-      .ok { obj := { typ := [lvP], values := [.int 1] }, ext := [] } := by decide
+  have h1 : newNamedX [lvP3] [("a", .int 1), ("p", .int 3)] (.hash "") =
+      .ok { obj := { typ := [lvP3], values := [.int 1] }, ext := [("p", .int 3)] } := by decide
+  obtain ⟨o', hn, he⟩ := h [lvP3] _ (.hash "") _ wf_lvP3 h1 ⟨by decide, by decide⟩
+  have h2 : newNamedX [lvP3] (initHash { typ := [lvP3], values := [.int 1] }) (.hash "") =
+      .ok { obj := { typ := [lvP3], values := [.int 1] }, ext := [] } := by decide
   rw [h2] at hn
   cases hn
-  have h3 : equalsX { obj := { typ := [lvP], values := [.int 1] }, ext := [] }
-      { obj := { typ := [lvP], values := [.int 1] }, ext := [("p", .undef)] } = .ok false := by decide
+  have h3 : equalsX { obj := { typ := [lvP3], values := [.int 1] }, ext := [] }
+      { obj := { typ := [lvP3], values := [.int 1] }, ext := [("p", .int 3)] } = .ok false := by decide
   rw [h3] at he
   cases he
+
+/-- the fixed undef face: `new(T, {a => 1, p => undef})` was a `T[p => undef]` (`bindParamsBefore`) whose init-hash `{a => 1}`
+    rebuilt a plain `T`; now it is a plain `T`, `ExtOK`, and `C17x_inithash_partial` applies -/
+theorem C17x_inithash_before_fix :
+    bindParamsBefore [lvP] [("a", .int 1), ("p", .undef)] [.int 1] = [("p", .undef)] ∧
+    newNamedX [lvP] [("a", .int 1), ("p", .undef)] (.hash "") =
+      .ok { obj := { typ := [lvP], values := [.int 1] }, ext := [] } ∧
+    ExtOK { obj := { typ := [lvP], values := [.int 1] }, ext := [] } := by
+  refine ⟨by decide, by decide, ?_⟩
+  unfold ExtOK
+  decide
 
 /-- hypotheses of `C17x_inithash_partial`: a positional construction that binds the parameter is `ExtOK` -/
 example : ExtOK { obj := { typ := [lvP], values := [.int 1, .int 5] }, ext := [("p", .int 5)] } :=
@@ -1756,25 +1841,26 @@ theorem C17_get_liskov {ds : List Def} {env : List OType} (h : defineAll [] ds =
 
 /-! ### the definition re-created from the InitHash of the type it defined -/
 
-/-- FULL statement: every accepted definition, re-created from the InitHash of the type it defined (`typeDef`, what
+/-- every accepted definition, re-created from the InitHash of the type it defined (`typeDef`, what
     `objectType.InitHash()` / `String()` / the serializer print), is accepted again and yields the same type — the own
-    attributes in the order of the printed definition, `constants` last (`reorder`).  FALSE of model and code: the known
-    finding C17-type-inithash-constant-undef (`C17_type_inithash_constant_undef`). -/
-def C17_type_inithash : Prop :=
-  ∀ (env : List OType) (d : Def) (l : Level) (p : OType), DefShape d → define env d = .ok (l :: p) →
-    (∀ f ∈ l.funcs, ∀ a ∈ l.attrs, a.name = f.name → a.constLike = true) →
-    define env (typeDef d.parent l) = .ok ({ l with attrs := reorder l.attrs } :: p)
-
-/-- proved part: … provided no own attribute is a constant of an `Optional[…]` type whose value is undef
-    (`attribute.initHash` leaves the `value => undef` of every attribute of an Optional type out; a constant has no
-    implicit value).  Missing: nothing else — the hypothesis `hu` is exactly the finding.  (`hfk`, in the full statement
-    too: a function shares its name only with a constant that is printed under `constants` — the only attribute a function
-    can share its name with is a `constants` entry, and in the universe of the driver every such entry is `constLike`.) -/
-theorem C17_type_inithash_partial {env : List OType} {d : Def} {l : Level} {p : OType} (hd : DefShape d)
-    (h : define env d = .ok (l :: p)) (hu : ∀ a ∈ l.attrs, a.undefConstant = false)
+    attributes in the order of the printed definition, `constants` last (`reorder`).  Proved at full strength since the
+    fix 86875be (finding C17-type-inithash-constant-undef, now fixed: `C17_type_inithash_before_fix` replays it).
+    (`hfk`: a function shares its name only with a constant that is printed under `constants` — the only attribute a
+    function can share its name with is a `constants` entry, and in the universe of the driver every such entry is
+    `constLike`.) -/
+theorem C17_type_inithash {env : List OType} {d : Def} {l : Level} {p : OType} (hd : DefShape d)
+    (h : define env d = .ok (l :: p))
     (hfk : ∀ f ∈ l.funcs, ∀ a ∈ l.attrs, a.name = f.name → a.constLike = true) :
     define env (typeDef d.parent l) = .ok ({ l with attrs := reorder l.attrs } :: p) :=
-  define_typeDef hd.names hd.constNames h hu hfk
+  define_typeDef hd.names hd.constNames h hfk
+
+/-- the statement proved before the fix (kept: same conclusion under the then necessary exclusion of a constant of an
+    `Optional[…]` type whose value is undef; now a corollary) -/
+theorem C17_type_inithash_partial {env : List OType} {d : Def} {l : Level} {p : OType} (hd : DefShape d)
+    (h : define env d = .ok (l :: p)) (_hu : ∀ a ∈ l.attrs, a.undefConstant = false)
+    (hfk : ∀ f ∈ l.funcs, ∀ a ∈ l.attrs, a.name = f.name → a.constLike = true) :
+    define env (typeDef d.parent l) = .ok ({ l with attrs := reorder l.attrs } :: p) :=
+  C17_type_inithash hd h hfk
 
 /-- the re-created type lays out, finds and compares its attributes exactly like the original: same positional attributes,
     required count and equality positions (`attrInfo`), same member lookup — hence the same constructors, `Get`,
@@ -1804,8 +1890,10 @@ theorem C17_type_inithash_same {env : List OType} {d : Def} {l : Level} {p : OTy
     unfold initHash
     simp only [hai]
 
-/-- the known finding, replayed in the model: `{a => {type => Optional[Integer], kind => constant, value => undef}}` is
-    accepted, the definition its type prints as is rejected with CONSTANT_REQUIRES_VALUE -/
+/-- the finding C17-type-inithash-constant-undef (fixed by 86875be), replayed in the model:
+    `{a => {type => Optional[Integer], kind => constant, value => undef}}` is accepted; the definition its type printed
+    as BEFORE the fix (`typeDefBefore`: the undef of every attribute of an Optional type left out) is rejected with
+    CONSTANT_REQUIRES_VALUE; the one it prints as now is accepted and gives the same type -/
 def undefConstDef : Def :=
   { parent := none, attrs := [{ name := "a", ty := .opt .int, kind := .constant, dflt := some .undef }],
     equality := .absent, includeType := none, serialization := none }
@@ -1813,13 +1901,10 @@ def undefConstLevel : Level :=
   { id := 0, attrs := [{ name := "a", ty := .opt .int, kind := .constant, value := some .undef, final := true }],
     equality := none, includeType := true, serialization := none }
 
-theorem C17_type_inithash_constant_undef : ¬ C17_type_inithash := by
-  intro h
-  have h1 : define [] undefConstDef = .ok [undefConstLevel] := by decide
-  have h2 := h [] undefConstDef undefConstLevel [] ⟨by decide, by decide⟩ h1 (by decide)
-  have h3 : define [] (typeDef undefConstDef.parent undefConstLevel) = .error .constantRequiresValue := by decide
-  rw [h3] at h2
-  cases h2
+theorem C17_type_inithash_before_fix :
+    define [] undefConstDef = .ok [undefConstLevel] ∧
+    define [] (typeDefBefore undefConstDef.parent undefConstLevel) = .error .constantRequiresValue ∧
+    define [] (typeDef undefConstDef.parent undefConstLevel) = .ok [undefConstLevel] := by decide
 
 /-! ### non-vacuity: a three-level chain with a constant, an Optional attribute, a given_or_derived attribute, a default,
     a declared equality and a serialization order meets every hypothesis used above -/
